@@ -2121,6 +2121,10 @@ func nmCorpus(prop string, n *nmEnv) [][]nmOp {
 			cat(ticks(1, 11), []nmOp{resize(12), resize(9)}, ticks(12, 14), []nmOp{resize(11), resize(12), resize(3)}, ticks(15, 16)),
 			// the same on a ring that has not wrapped yet: up-up, up-down, down-up with 0/1 ticks between
 			cat(ticks(1, 4), []nmOp{resize(11), resize(12)}, ticks(5, 5), []nmOp{resize(4), resize(6)}, ticks(6, 7), []nmOp{resize(5)}, ticks(8, 9)),
+			// ring indices on both sides of 127/128 and up to the 254 limit: a wrapped ring enlarged
+			// above 128, shrunk back, ticks, enlarged above 128 again; nothing stale may come back
+			cat(ticks(1, 11), []nmOp{resize(200)}, ticks(12, 13), []nmOp{resize(10)}, ticks(14, 16), []nmOp{resize(200)}, ticks(17, 18),
+				[]nmOp{resize(129), resize(127), resize(128), resize(254), resize(255), resize(3)}, ticks(19, 21), []nmOp{resize(130)}, ticks(22, 23)),
 			// byte boundaries of the four-byte epoch key: jump to 255, +1 ticks over 256/257 with
 			// structured nodes, a resize after epoch 256, jumps to 65535 (+1, +2) and 2^24 (+1)
 			cat(ticks(1, 2), ticks(255, 258), []nmOp{resize(3)}, ticks(259, 261), ticks(65535, 65537), []nmOp{resize(5)},
@@ -2275,6 +2279,10 @@ func runNetmapFamily(t *testing.T, prop string) {
 			p := pt{ticks: []int{t0}, light: true}
 			epoch, count := int64(t0), int64(10)
 			nres := 2 + r.Intn(2)
+			big := r.Intn(5) == 0 // up above 128, down, (ticks,) up again
+			if big {
+				nres = 3
+			}
 			for j := 0; j < nres; j++ {
 				var c int64
 				switch r.Intn(6) {
@@ -2296,6 +2304,10 @@ func runNetmapFamily(t *testing.T, prop string) {
 				}
 				if c > 14 {
 					c = 14
+				}
+				if big && j%2 == 0 {
+					// ring indices on both sides of the signed-byte boundary and up to the limit
+					c = []int64{127, 128, 129, 200, 254}[r.Intn(5)]
 				}
 				if c == count {
 					if c < 14 {
@@ -2424,6 +2436,7 @@ func runNetmapFamily(t *testing.T, prop string) {
 	st.Extra["case_files"] = fs.k
 	if prop == "C06" {
 		runEpochSystem(t, st)
+		runProbeCallbacks(t, st)
 	}
 	st.Write()
 }
@@ -3076,4 +3089,192 @@ func runEpochSystem(t *testing.T, st *Stats) {
 	st.Extra["system"] = map[string]any{"histories": nh, "evaluations": evals, "ticks_through_netmap_ok": ticksOK, "ticks_refused": ticksRefused,
 		"locks_released_by_netmap_ticks": released, "estimation_epochs_cleaned_by_netmap_ticks": cleaned, "estimations_accepted": putsOK,
 		"contracts": "nns, netmap, balance (subscriber 0), container (subscriber 1), probe"}
+}
+
+// ---------------------------------------------------------------------------
+// C06, subscribers that talk back to Netmap during their newEpoch callback.
+// The Coq model treats subscribers abstractly (they do not call back), so
+// these histories are judged by the Go monitor alone, against the property
+// text "a successful tick atomically publishes ... records the tick height ...
+// and calls newEpoch(e) on every subscribed contract; otherwise nothing
+// changes":
+//   - mode 1: the probe reads netmap.epoch(), lastEpochBlock(), netmap(),
+//     snapshot(0), listNodes(e) while it is being called: it must see the NEW
+//     epoch's data (publication precedes the fan-out);
+//   - mode 2: the probe re-enters netmap.newEpoch(e) (or e-1): the inner call is
+//     not a growing epoch, so the whole tick faults and nothing changes;
+//   - mode 3: the probe adds a candidate (addPeerIR) during the callback: the map
+//     published for e is the candidate set at tick time, the new candidate
+//     appears only among the candidates.
+func runProbeCallbacks(t *testing.T, st *Stats) {
+	evals, checks := 0, 0
+	var readable []string
+	violate := func(what string) {
+		st.AddViolation("probe callback: "+what, map[string]any{"readable": append([]string{}, readable...)})
+	}
+	type world struct {
+		n      *nmEnv
+		p0, p1 util.Uint160
+		epoch  int64
+	}
+	mk := func(salt int64) *world {
+		n := newNmEnvN(t, Rng(salt), false, 2, 4, 1)
+		readable = nil
+		return &world{n: n, p0: n.probes[0], p1: n.probes[1]}
+	}
+	al := func(w *world) []neotest.Signer { return []neotest.Signer{w.n.committee} }
+	do := func(w *world, expectHalt bool, h util.Uint160, method string, args ...any) Result {
+		r := w.n.Invoke(al(w), h, method, args...)
+		evals++
+		readable = append(readable, fmt.Sprintf("%s%v -> halt=%v", method, args, r.Halt))
+		if r.Halt != expectHalt {
+			violate(fmt.Sprintf("%s%v: expected success=%v, halted=%v (%s)", method, args, expectHalt, r.Halt, r.Fault))
+		}
+		return r
+	}
+	probeGV := func(w *world, method string, args ...any) gv {
+		it, err := w.n.Read(w.p0, method, args...)
+		if err != nil {
+			return gFault
+		}
+		return itemGV(it)
+	}
+	state := func(w *world) string {
+		n := w.n
+		return gList(n.readGV("epoch"), n.readGV("lastEpochBlock"), n.readGV("netmap"), n.readGV("netmapCandidates"),
+			n.readGV("listCandidates"), n.answer(nmQuery{kind: "QCur"}), gBig(n.ReadInt(w.p0, "total")), gBig(n.ReadInt(w.p1, "total"))).key()
+	}
+	// tickSeen: a tick with the probe in mode 1; what it saw must be the new epoch's data
+	tickSeen := func(w *world, e int64) {
+		n := w.n
+		cands := n.readGV("netmapCandidates")
+		cands2 := n.readGV("listCandidates")
+		r := do(w, e > w.epoch, n.netmap, "newEpoch", e)
+		if !r.Halt {
+			return
+		}
+		w.epoch = e
+		checks++
+		var online []gv
+		for _, c := range cands.l {
+			if c.l[1].i.Int64() != 2 {
+				online = append(online, c)
+			}
+		}
+		cmp := func(what string, got, want gv) {
+			if !got.eq(want) {
+				violate(fmt.Sprintf("during newEpoch(%d) the subscriber saw %s = %s, expected %s", e, what, got.key(), want.key()))
+			}
+		}
+		cmp("netmap.epoch()", probeGV(w, "seenInt", "epoch"), gInt(e))
+		cmp("netmap.lastEpochBlock()", probeGV(w, "seenInt", "block"), n.readGV("lastEpochBlock"))
+		cmp("netmap.netmap()", probeGV(w, "seen", "netmap"), gListOf(online))
+		cmp("netmap.snapshot(0)", probeGV(w, "seen", "snapshot0"), gListOf(online))
+		seenNodes := probeGV(w, "seen", "nodes")
+		if seenNodes.k == 'n' {
+			seenNodes = gListOf(nil) // the probe's empty Go slice is serialized as Null
+		}
+		cmp("netmap.listNodes(e)", seenNodes, cands2)
+		cmp("its argument", probeGV(w, "seenInt", "arg"), gInt(e))
+		cmp("netmap() after the tick", n.readGV("netmap"), gListOf(online))
+	}
+	node2 := func(w *world, i int, tag string) {
+		n := w.n
+		op := nmOp{Kind: "addNode", Addrs: []string{"cb://" + tag}, Attrs: [][2]string{{"k", tag}}, Key: n.nodes[i].pub, State: 1, Signers: []int{-1, i}}
+		tx := n.prepare(op)
+		b := n.E.AddNewBlock(t, tx)
+		evals++
+		if !n.ResultOf(tx, b).Halt {
+			violate("addNode refused in the callback scenario")
+		}
+		readable = append(readable, op.String())
+	}
+	// A: read and record, corpus + random continuation
+	for hi := 0; hi < 3; hi++ {
+		w := mk(7000 + int64(hi))
+		n := w.n
+		r := Rng(7100 + int64(hi))
+		do(w, true, n.netmap, "subscribeForNewEpoch", w.p1)
+		do(w, true, n.netmap, "subscribeForNewEpoch", w.p0)
+		do(w, true, w.p0, "setMode", 1, n.netmap, nil)
+		do(w, true, n.netmap, "addPeerIR", n.info(0, 1, 3))
+		node2(w, 0, "a")
+		tickSeen(w, 1)
+		do(w, true, n.netmap, "addPeerIR", n.info(1, 2, 3))
+		do(w, true, n.netmap, "updateStateIR", 3, n.nodes[0].pub)
+		tickSeen(w, 3) // jump
+		tickSeen(w, 3) // refused: not a growing epoch
+		node2(w, 1, "b")
+		do(w, true, n.netmap, "deleteNode", n.nodes[0].pub)
+		tickSeen(w, 4)
+		for i := 0; i < 6+hi*3; i++ {
+			k := r.Intn(4)
+			switch r.Intn(4) {
+			case 0:
+				do(w, true, n.netmap, "addPeerIR", n.info(k, byte(10+i), 3))
+			case 1:
+				node2(w, k, fmt.Sprint(i))
+			case 2:
+				do(w, true, n.netmap, "deleteNode", n.nodes[k].pub)
+			default:
+				tickSeen(w, w.epoch+1+int64(r.Intn(2)))
+			}
+		}
+		tickSeen(w, w.epoch+1)
+	}
+	// B: re-entering newEpoch from the callback makes the whole tick fault
+	{
+		w := mk(7200)
+		n := w.n
+		do(w, true, n.netmap, "subscribeForNewEpoch", w.p0)
+		do(w, true, n.netmap, "subscribeForNewEpoch", w.p1)
+		do(w, true, n.netmap, "addPeerIR", n.info(0, 1, 3))
+		for _, delta := range []int{0, -1} {
+			for _, e := range []int64{1, 5} {
+				do(w, true, w.p0, "setMode", 2, n.netmap, delta)
+				before := state(w)
+				do(w, false, n.netmap, "newEpoch", e)
+				checks++
+				if after := state(w); after != before {
+					violate(fmt.Sprintf("newEpoch(%d) re-entered by a subscriber (delta %d): state changed from %s to %s", e, delta, before, after))
+				}
+			}
+		}
+		do(w, true, w.p0, "setMode", 0, n.netmap, nil)
+		do(w, true, n.netmap, "newEpoch", int64(1))
+		do(w, true, w.p0, "setMode", 2, n.netmap, 0)
+		before := state(w)
+		do(w, false, n.netmap, "newEpoch", int64(2))
+		checks++
+		if after := state(w); after != before {
+			violate("newEpoch(2) re-entered by a subscriber: state changed")
+		}
+	}
+	// C: a candidate added during the callback is not part of the map published for e
+	{
+		w := mk(7300)
+		n := w.n
+		do(w, true, n.netmap, "subscribeForNewEpoch", w.p0)
+		do(w, true, n.netmap, "addPeerIR", n.info(0, 1, 3))
+		do(w, true, w.p0, "setMode", 3, n.netmap, n.info(2, 9, 3))
+		before := n.readGV("netmapCandidates")
+		do(w, true, n.netmap, "newEpoch", int64(1))
+		checks++
+		if got := n.readGV("netmap"); !got.eq(before) {
+			violate(fmt.Sprintf("netmap() after newEpoch(1) = %s, expected the candidate set at tick time %s (a subscriber added a candidate during its callback)", got.key(), before.key()))
+		}
+		if got := n.readGV("netmapCandidates"); len(got.l) != 2 {
+			violate("the candidate added by the subscriber during its callback is missing from netmapCandidates: " + got.key())
+		}
+		do(w, true, w.p0, "setMode", 0, n.netmap, nil)
+		cands := n.readGV("netmapCandidates")
+		do(w, true, n.netmap, "newEpoch", int64(2))
+		if got := n.readGV("netmap"); !got.eq(cands) {
+			violate("netmap() after newEpoch(2) is not the candidate set: " + got.key())
+		}
+	}
+	st.Evaluations += evals
+	st.Histories += 5
+	st.Extra["probe_callbacks"] = map[string]any{"histories": 5, "invocations": evals, "callback_checks": checks,
+		"note": "subscribers that read Netmap, re-enter newEpoch or add a candidate during their callback; judged by the Go monitor (the model's subscribers do not call back)"}
 }
